@@ -474,14 +474,24 @@ def log_features(log):
     return f
 
 
+def _coq_targets():
+    """the WorkMT files in dependency order; those not (yet) listed in _CoqProject have no make rule and are left to the
+    direct compilation of the Properties file (their .vo files are kept in the tree)"""
+    names = ["WorkMT", "WorkMTMon", "WorkMTBase", "WorkMTSpec", "WorkMTCs", "WorkMTInvA", "WorkMTInvW", "WorkMTInvW4", "WorkMTInvW5",
+             "WorkMTProofs", "WorkMTInvI", "WorkMTInvT", "WorkMTSim", "WorkMTFinal"]
+    try:
+        listed = open(os.path.join(vlib.COQ, "_CoqProject")).read().split()
+    except OSError:
+        listed = []
+    return ["theories/MT/%s.vo" % n for n in names if ("theories/MT/%s.v" % n) in listed]
+
+
 class _WorkCheck(MTCheck):
     extract_v = "Extract/ExtractWorkMT.v"
     model_ml = "workmt_model.ml"
     driver_in = "workmt_drv.ml.in"
     open_module = "Workmt_model"
-    coq_targets = ["theories/MT/WorkMT.vo", "theories/MT/WorkMTMon.vo", "theories/MT/WorkMTBase.vo", "theories/MT/WorkMTSpec.vo", "theories/MT/WorkMTCs.vo",
-                   "theories/MT/WorkMTInvA.vo", "theories/MT/WorkMTInvW.vo", "theories/MT/WorkMTInvW4.vo",
-                   "theories/MT/WorkMTInvW5.vo"]
+    coq_targets = _coq_targets()
     trusted = [
         "log -> label abstraction (ocaml/workmt_drv.ml.in, unproved): owner = the thread that creates the pool; pool lock = the first "
         "x<n> lock taken inside the first submit / put; loop lock of a pool thread = the first unclassified x<n> lock it takes after its "
@@ -493,8 +503,14 @@ class _WorkCheck(MTCheck):
         "iv_event taken at its interface (C08): FIFO coalescing list per loop, post under the loop's lock, kick iff the list became "
         "non-empty from another thread, pop before the handler, unregister = lock + unlink; the model decides which event an `L e<k>` "
         "concerns from the state of the acting thread; guards of `step` that encode other components: iv_main returns only with "
-        "numobjs = 0 (MainEnd), a wait with an armed timer has a deadline and a registered task prevents blocking (QUIESCENT), no "
-        "undelivered post at QUIESCENT",
+        "numobjs = 0 (MainEnd; nothing but D follows it), a wait with an armed timer has a deadline and a registered task prevents "
+        "blocking (QUIESCENT), no undelivered post at QUIESCENT, the owner is blocked at QUIESCENT only with events registered on "
+        "its loop (otherwise iv_main would have returned; pending user timers would be a deadline)",
+        "monitors MT/WorkMTMon.v (extracted, run on every log, accepted or not): C12 = per item submitted -> work started -> work "
+        "returned -> completed with the thread clauses, running pool work functions <= max_threads, nothing in flight at the end; "
+        "C13 = hooks paired per thread, finish only with paired hooks, join after finish, MainEnd only with everything joined and "
+        "completed, no QUIESCENT after put, D only after MainEnd; theorems C12_monitor_accepts / C13_hooks_paired: every sequence "
+        "accepted by the model passes them",
         "one pool per scenario, owner loop + pool threads + helper threads created by the owner; virtual time is not in the model: the "
         "idle timer may fire whenever the worker is on the idle list (covers every expiry time)",
         "baton scheduler mt.c / virtual kernel vk.c as for C08: sequentially consistent interleavings, switches at the yield points only",
